@@ -67,7 +67,9 @@ def oracle_bytes(ctx, n):
         nls = [i for i, c in enumerate(log.data[:400]) if c == 10][:5]
         cands = [64, 65, 100, 128, 4096] + [x for p_ in nls for x in (p_, p_ + 1, p_ + 5) if x >= 64]
         fl = first_head_end(log)
-        for bs in [None, rng.pick(cands), rng.pick(cands)]:
+        # a newline exactly on the last byte of block zero (bs = p + 1) for each of the first newlines
+        edge = [p_ + 1 for p_ in nls[:4] if p_ + 1 >= 64]
+        for bs in [None, rng.pick(cands)] + edge:
             extra = [] if bs is None else ['--blocksz', str(bs)]
             rc, out, err, _ = run_plain(p, extra)
             ev += 1
@@ -108,6 +110,8 @@ def oracle_blocksz(ctx, n, sizes=None, sig_known=True):
         rc0, out0, err0, _ = run_plain(p)
         ev += 1
         bss = sizes if ctx.thorough else [rng.pick(sizes[:9]), rng.pick(sizes[:9]), rng.pick(sizes[9:]), 64 + rng.below(200)]
+        # and a newline exactly on the last byte of block zero, for the first newlines of the file
+        bss = list(bss) + [p_ + 1 for p_ in [i for i, c in enumerate(log.data[:600]) if c == 10][:4] if p_ + 1 >= 64]
         for bs in bss:
             rc, out, err, _ = run_plain(p, ['--blocksz', str(bs)])
             ev += 1
@@ -251,3 +255,46 @@ def oracle_window(ctx, n, kinds=('plain', 'gz')):
     return {'evaluations': ev, 'distinct_nontrivial': ev, 'failures': fails, 'samples': samples,
             'rule': f'{n} sorted text logs with duplicate instants ({kinds}) x windows placed on, next to and between message instants, '
                     'one-sided and empty; stdout must be exactly the messages with A<=t<=B in file order, exit 0; distinct = runs'}
+
+
+def search_from_disagreements(ctx, corr_results, limit=12):
+    """Search step (DESIGN §3 step 5): start from the requests on which model and implementation
+    disagreed (components whose request carries a block size and the file bytes: proc, gate, sysl, line)
+    and look for a failing input of the property itself on the real binary: stdout at that
+    --blocksz vs the default block size."""
+    fails, ev = [], 0
+    seen = set()
+    for c in corr_results:
+        for d in c.get('disagreements', []):
+            w = d['request'].split()
+            if len(w) < 3 or w[0] not in ('proc', 'gate', 'sysl', 'line'):
+                continue
+            try:
+                if w[0] in ('proc', 'gate'):
+                    bs, hx = int(w[1]), w[2]
+                elif w[0] == 'sysl':
+                    bs, hx = int(w[1]), w[3]
+                else:
+                    bs, hx = int(w[2]), w[3]
+                data = bytes.fromhex(hx) if hx != '-' else b''
+            except Exception:
+                continue
+            if (bs, hx) in seen or bs < 64 or not data:
+                continue
+            seen.add((bs, hx))
+            if len(seen) > limit:
+                break
+            p = os.path.join(ctx.work, 'dis_%d.log' % len(seen))
+            open(p, 'wb').write(data)
+            rc0, out0, _, _ = run_plain(p)
+            rc1, out1, _, _ = run_plain(p, ['--blocksz', str(bs)])
+            ev += 2
+            if (rc0, out0) != (rc1, out1):
+                # the same attribution rules as the block-size oracle
+                i = data.find(b'\n')
+                sig = 'blocksz:stdout-differs-from-default'
+                fails.append({'signature': sig, 'detail': f'from a {w[0]} disagreement: --blocksz {bs}: ' + first_diff(out1, out0),
+                              'args': e2e.BASE_ARGS + ['--blocksz', str(bs), 'FILE'], 'file_hex': small_hex(data)})
+            os.unlink(p)
+    return {'evaluations': ev, 'distinct_nontrivial': max(len(seen), 0), 'failures': fails, 'samples': [],
+            'rule': 'search from correspondence disagreements: the disagreeing file at the disagreeing --blocksz vs the default block size'}
